@@ -102,6 +102,8 @@ J gen(uint64_t seed, bool thorough) {
         std::vector<int> const &from = (!plain.empty() && (mts.empty() || r.chance(0.88))) ? plain : mts;
         o2["bias"] = "b" + std::to_string(from[r.below(from.size())]); } ops.push(o2); sig += o2.at("op").as_str() == "off" ? "x" : "o";
     }
+    // the live module reloads its own state (the counter of steps since the last (re)start begins again: nothing observable may change)
+    if (s < nseg - 1 && r.chance(0.35)) { J o3 = J::obj(); o3["w"] = 0; o3["op"] = "reload"; ops.push(o3); sig += "l"; }
   }
   sc["template"] = sig.size() > 24 ? sig.substr(0, 24) : sig;
   plan["scenario"] = sc;
@@ -143,6 +145,11 @@ Trace execute(J const &plan, std::vector<size_t> const &subset, bool tsf1, RunRe
     else if (k == "off" || k == "on") {
       std::string b = op.at("bias").as_str();
       if (std::find(names.begin(), names.end(), b) != names.end()) { e->run_script({"cv", "bias", b, "set", "active", k == "on" ? "1" : "0"}); if (subset.size() > 1) res.counters["fault.bias_switched_off_or_on"]++; }
+    } else if (k == "reload") {
+      if (e->rec.empty()) continue;
+      std::string st; if (e->run_script({"cv", "savetostring"}, &st) == COLVARS_OK) e->run_script({"cv", "loadfromstring", st});
+      cvm::clear_error();
+      if (subset.size() > 1) res.counters["fault.live_reload"]++;
     }
   }
   out.recs = e->rec;
@@ -174,6 +181,11 @@ RunResult run(J const &plan) {
   // difference scales with the OTHER biases' forces, not with ABF's own small numbers
   bool abf_late = plan.at("scenario").at("engine").at("forces_late").as_bool() && feats.find("abf") != std::string::npos;
   double const rt = abf_late ? 1e-7 : 1e-10, at_e = abf_late ? 1e-9 : 1e-12, at_f = abf_late ? 1e-9 : 1e-11;
+  // first record at which a run raised the library's restart-consistency error (see below); npos = never
+  auto jump_at = [](Trace const &t) { for (size_t q = 0; q < t.errmsg.size(); q++) if (t.errmsg[q].find("differs greatly from the value") != std::string::npos) return q; return (size_t)-1; };
+  std::vector<size_t> jump_from(nb); size_t jump_full = jump_at(full), jump_any = jump_full;
+  for (size_t i = 0; i < nb; i++) { jump_from[i] = jump_at(alone[i]); jump_any = std::min(jump_any, jump_from[i]); }
+  if (jump_any != (size_t)-1) res.counters["probe.runs_cut_short_by_restart_consistency_error"]++;
   // the switch state each bias should have: what the script asked for, and awake only on multiples of its factor
   {
     std::vector<bool> user_on(nb, true);
@@ -187,7 +199,16 @@ RunResult run(J const &plan) {
           for (size_t i = 0; i < nb && !res.violation; i++) {
             long tsf = (long)bl.a[i].at("tsf").as_int(1);
             bool expect = user_on[i] && (tsf == 1 || full.recs[s].step % tsf == 0);
+            // a variable whose only bias sleeps keeps a stale value; a state saved then makes the library's own consistency test
+            // ("differs greatly from the value last read") fire at the next evaluation: that run is not judged from there on
+            if (jump_from[i] <= s) continue;
             bool got = s < alone[i].active.size() && !alone[i].active[s].empty() && alone[i].active[s][0];
+            { size_t q = std::find(full.order.begin(), full.order.end(), bl.a[i].at("name").as_str()) - full.order.begin();
+              if (jump_full > s && q < full.order.size() && s < full.active.size() && q < full.active[s].size() && full.active[s][q] != expect) {
+                res.fail("activity", std::string(full.active[s][q] ? "active_although_" : "inactive_although_") + (!user_on[i] ? "switched_off" : (expect ? "should_be_awake" : "asleep")) + (tsf > 1 ? "/mts" : "/plain") + "/together",
+                         "step " + std::to_string(full.recs[s].step) + " (record " + std::to_string(s) + "): bias " + bl.a[i].at("name").as_str() + " (timeStepFactor " + std::to_string(tsf) + ") is " + (full.active[s][q] ? "active" : "inactive") + " in the run with all biases");
+                break;
+              } }
             if (expect != got) {
               std::string why = !user_on[i] ? "switched_off" : (expect ? "should_be_awake" : "asleep");
               res.fail("activity", std::string(got ? "active_although_" : "inactive_although_") + why + (tsf > 1 ? "/mts" : "/plain"),
@@ -206,7 +227,8 @@ RunResult run(J const &plan) {
   for (size_t s = 0; s < full.recs.size() && !res.violation; s++) {
     StepRec const &A = full.recs[s];
     std::string at = "step " + std::to_string(A.step) + " (record " + std::to_string(s) + ")";
-    if (A.err) { res.fail("superposition", "step_error", at + ": error bits " + std::to_string(A.err) + ": " + (s < full.errmsg.size() ? full.errmsg[s] : "")); break; }
+    if (s >= jump_any) break;
+    if (A.err) { res.fail("superposition", s < full.errmsg.size() && full.errmsg[s].find("cannot decrease reference count of feature \"active\"") != std::string::npos ? "step_error/active_reference_count" : "step_error", at + ": error bits " + std::to_string(A.err) + ": " + (s < full.errmsg.size() ? full.errmsg[s] : "")); break; }
     size_t nf = A.fapp.size();
     std::vector<double> sum(nf, 0.0); double esum = 0, scale = 0, escale = 0;
     for (size_t i = 0; i < nb; i++) {
@@ -244,7 +266,7 @@ RunResult run(J const &plan) {
     Trace one;
     { SimRun sim(1); one = execute(plan, {i}, true, res); sim.finish(res); }
     if (!one.err.empty() || one.recs.size() != alone[i].recs.size()) continue;
-    for (size_t s = 0; s < one.recs.size() && !res.violation; s++) {
+    for (size_t s = 0; s < one.recs.size() && s < jump_from[i] && s < jump_at(one) && !res.violation; s++) {
       StepRec const &B = alone[i].recs[s], &C = one.recs[s];
       bool off = s < alone[i].active.size() && !alone[i].active[s].empty() && !alone[i].active[s][0];
       if (off || (B.step % tsf) != 0) continue;
